@@ -63,6 +63,7 @@ def handle (st : DState) (line : String) : DState × String :=
   | "cfg" :: args => (st, cmdCfg args)
   | "dl" :: args => (st, cmdDownload args)
   | "sea" :: args => (st, cmdSea args)
+  | "t2" :: args => (st, cmdTests2 args)
   | "x" :: args => let (a, r) := cmdAux st.aux args; ({ st with aux := a }, r)
   | _ => (st, "bad-op")
 
